@@ -51,7 +51,24 @@ fn palette() -> Vec<(&'static str, &'static str, bool)> {
         ("a\\b", "backslash", false),
         ("\\x41;", "backslash", false),
         ("a\\", "backslash", false),
+        // two or more characters that the written form has to escape
+        ("a b c", "multi-escape", false),
+        ("hello big world", "multi-escape", false),
+        ("(a b)", "multi-escape", false),
+        ("1 2", "multi-escape", false),
+        ("\t\n", "multi-escape", false),
+        ("a\\b\\c", "multi-escape", false),
+        ("x;y;z", "multi-escape", false),
+        ("  ", "multi-escape", false),
     ]
+}
+
+/// a seeded name over a small alphabet of ordinary and special characters
+fn random_name(rng: &mut Rng) -> &'static str {
+    const ALPHA: [char; 16] = ['a', 'b', 'Z', ' ', '(', ')', '"', ';', '\\', '\t', '7', 'λ', '|', '#', '\'', '.'];
+    let n = rng.usize(7);
+    let s: String = (0..n).map(|_| ALPHA[rng.usize(ALPHA.len())]).collect();
+    Box::leak(s.into_boxed_str())
 }
 
 fn strlit(s: &str) -> String {
@@ -180,7 +197,7 @@ fn generate(rng: &mut Rng) -> Generated {
     let mut desc = vec![];
     let n_pairs = 1 + rng.usize(3);
     for p in 0..n_pairs {
-        let (name1, class1, lit1) = pal[rng.usize(pal.len())];
+        let (name1, class1, lit1) = if rng.chance(1, 6) { (random_name(rng), "random", false) } else { pal[rng.usize(pal.len())] };
         // second name: same (mostly) or a different one
         let same = rng.chance(2, 3);
         let (name2, _class2, lit2) = if same { (name1, class1, lit1) } else { pal[rng.usize(pal.len())] };
@@ -194,14 +211,14 @@ fn generate(rng: &mut Rng) -> Generated {
         let e1 = produce(r1, name1, p * 2, &mut aux);
         let e2 = produce(r2, name2, p * 2 + 1, &mut aux);
         forms.extend(aux);
-        let holder = rng.below(6);
+        let holder = rng.below(9);
         let garbage = format!("(begin (t-build {}) (t-syms {}) 'g)", rng.range(1, 60), rng.range(0, 12));
         let what = format!(
             "eq? route1={:?} route2={:?} name-class={} holder={} names-{}",
             r1,
             r2,
             class1,
-            ["global", "vector", "closure", "stack", "dropped", "captured-stack"][holder as usize],
+            ["global", "vector", "closure", "stack", "dropped", "captured-stack", "vector-in-list", "closure-in-list", "nested-vector"][holder as usize],
             if names_equal { "equal" } else { "differ" }
         );
         desc.push(what.clone());
@@ -238,6 +255,25 @@ fn generate(rng: &mut Rng) -> Generated {
                 forms.push(garbage);
                 forms.push(format!("(if (< n{p} 1) (begin (set! n{p} (+ n{p} 1)) (kk{p} 'second)) 'no)", p = p));
                 forms.push(format!("(eq? (car cell{}) {})", p, e2));
+                expects.push(Expect { form: forms.len() - 1, expected: names_equal, what });
+            }
+            6 => {
+                // the holder is itself an element of a list
+                forms.push(format!("(define h{} (list 1 (vector 0 {}) 2))", p, e1));
+                forms.push(garbage);
+                forms.push(format!("(eq? (vector-ref (car (cdr h{})) 1) {})", p, e2));
+                expects.push(Expect { form: forms.len() - 1, expected: names_equal, what });
+            }
+            7 => {
+                forms.push(format!("(define h{} (list (let ((s {})) (lambda () s)) 'x))", p, e1));
+                forms.push(garbage);
+                forms.push(format!("(eq? ((car h{})) {})", p, e2));
+                expects.push(Expect { form: forms.len() - 1, expected: names_equal, what });
+            }
+            8 => {
+                forms.push(format!("(define h{} (vector (vector 0 (list (vector {}))) 1))", p, e1));
+                forms.push(garbage);
+                forms.push(format!("(eq? (vector-ref (car (vector-ref (vector-ref h{} 0) 1)) 0) {})", p, e2));
                 expects.push(Expect { form: forms.len() - 1, expected: names_equal, what });
             }
             3 => {
